@@ -130,7 +130,7 @@ pub open spec fn cands(a: Seq<Seq<char>>, b: Seq<Seq<char>>, i: nat, j: nat, sw:
     let c1 = cands1(a, b, i, j, sw, sp);
     if can_swap(a, b, i, j, sw, sp) { c1.push(dist(a, b, (i - 2) as nat, (j - 2) as nat, sw, sp) + 1) } else { c1 }
 }
-pub open spec fn costs_match(costs: Seq<(usize, EditOp)>, gc: Seq<nat>, gk: Seq<EditOp>) -> bool {
+spec fn costs_match(costs: Seq<(usize, EditOp)>, gc: Seq<nat>, gk: Seq<EditOp>) -> bool {
     costs.len() == gc.len() && gk.len() == gc.len() && forall|k: int| 0 <= k < gc.len() ==> (#[trigger] costs[k]).0 == gc[k] && costs[k].1 == gk[k]
 }
 proof fn lemma_costs_push(c0: Seq<(usize, EditOp)>, g0: Seq<nat>, k0: Seq<EditOp>, c1: Seq<(usize, EditOp)>, v: nat, o: EditOp)
@@ -208,7 +208,7 @@ proof fn done_next_row(d: Seq<usize>, sa: Seq<Seq<char>>, sb: Seq<Seq<char>>, ro
 }
 
 
-pub open spec fn pred_ok(op: EditOp, a: Seq<Seq<char>>, b: Seq<Seq<char>>, i: nat, j: nat, sw: bool, sp: bool) -> bool {
+spec fn pred_ok(op: EditOp, a: Seq<Seq<char>>, b: Seq<Seq<char>>, i: nat, j: nat, sw: bool, sp: bool) -> bool {
     match op {
         EditOp::None => false,
         EditOp::Keep => (i == 0 && j == 0) || (i > 0 && j > 0 && a[i - 1] == b[j - 1]
@@ -221,10 +221,10 @@ pub open spec fn pred_ok(op: EditOp, a: Seq<Seq<char>>, b: Seq<Seq<char>>, i: na
     }
 }
 
-pub open spec fn ocell(ops: Seq<EditOp>, cols: int, i: int, j: int) -> EditOp { ops[i * cols + j] }
+spec fn ocell(ops: Seq<EditOp>, cols: int, i: int, j: int) -> EditOp { ops[i * cols + j] }
 
 #[verifier::opaque]
-pub open spec fn odone(ops: Seq<EditOp>, sa: Seq<Seq<char>>, sb: Seq<Seq<char>>, rows: int, cols: int, i: int, j: int, sw: bool, sp: bool) -> bool {
+spec fn odone(ops: Seq<EditOp>, sa: Seq<Seq<char>>, sb: Seq<Seq<char>>, rows: int, cols: int, i: int, j: int, sw: bool, sp: bool) -> bool {
     forall|p: int, q: int| 0 <= p < rows && 0 <= q < cols && (p < i || (p == i && q < j) || q == 0) ==>
         pred_ok(#[trigger] ocell(ops, cols, p, q), sa, sb, p as nat, q as nat, sw, sp)
 }
@@ -266,7 +266,7 @@ proof fn odone_next_row(o: Seq<EditOp>, sa: Seq<Seq<char>>, sb: Seq<Seq<char>>, 
 }
 
 // candidate ops in code order
-pub open spec fn cand_ops(a: Seq<Seq<char>>, b: Seq<Seq<char>>, i: nat, j: nat, sw: bool, sp: bool) -> Seq<EditOp>
+spec fn cand_ops(a: Seq<Seq<char>>, b: Seq<Seq<char>>, i: nat, j: nat, sw: bool, sp: bool) -> Seq<EditOp>
     recommends i > 0, j > 0
 {
     let base = seq![EditOp::Delete, EditOp::Insert];
@@ -297,11 +297,11 @@ fn _calculate_edit_matrices(
     ensures
         res.0.len() == (a.view().len() + 1) * (b.view().len() + 1),
         forall|i: int, j: int| 0 <= i <= a.view().len() && 0 <= j <= b.view().len() ==>
-            #[trigger] cell(res.0@, b.view().len() + 1, i, j)
+            #[trigger] cell(res.0@, b.view().len() as int + 1, i, j)
                 == dist(a.view(), b.view(), i as nat, j as nat, with_swap, spaces_insert_delete_only),
         res.1.len() == (a.view().len() + 1) * (b.view().len() + 1),
         forall|i: int, j: int| 0 <= i <= a.view().len() && 0 <= j <= b.view().len() ==>
-            pred_ok(#[trigger] ocell(res.1@, b.view().len() + 1, i, j), a.view(), b.view(), i as nat, j as nat, with_swap, spaces_insert_delete_only),
+            pred_ok(#[trigger] ocell(res.1@, b.view().len() as int + 1, i, j), a.view(), b.view(), i as nat, j as nat, with_swap, spaces_insert_delete_only),
 {
     let rows = a.len() + 1;
     let cols = b.len() + 1;
